@@ -53,7 +53,7 @@ def floatify(T, v):
         if t['k'] in ir.RECORD_KINDS:
             for c in t['comps']:
                 if c['p'] == 'def':
-                    c['d'] = fn(c['t'], c['d'])
+                    c['d'] = fz.map_values(c['t'], c['d'], fn)
     return ir.canon(T2, fz.map_values(T2, v, fn))
 
 
